@@ -2,7 +2,7 @@
    ONLY statements, each closed by [exact] of a lemma proved in proofs/C20_plot.v.
    matplotlib's placement semantics is the DEFINITION [displayed_cell] / [arrow_index] of
    model/Plot.v (trusted); numpy.arctan2 and colorsys enter as Section variables / tables. *)
-From DF Require Import Prelude Constants_gen Region Mesh Plot C20_plot.
+From DF Require Import Prelude Constants_gen Region Mesh Plot C20_plot ListLemmas CheckSound Check_C20 C20_sound.
 Open Scope Q_scope.
 
 (* the array handed to imshow/contour is the transpose: row r, column c holds cell (c, r) *)
@@ -161,3 +161,225 @@ Print Assumptions C20_lightness.
 Theorem C20_hue : forall tp v, ~ tp == 0 -> normalise_from 0 tp 0 1 v == v / tp.
 Proof. exact hue_is_angle_over_twopi. Qed.
 Print Assumptions C20_hue.
+
+(* ---------------------------------------------------------------------------------------------
+   Soundness of the correspondence checker check_C20 (proofs/C20_sound.v): an accepted case
+   certifies the stated relation between the data read back from the matplotlib artists
+   (OBSERVED) and the model, and the TRANSFER theorems restate C20 conclusions about the
+   observation itself.  Values: equal as rationals ([oq_eq]: NaN = NaN, numbers ==);
+   coordinates / extent: within coord_tol of the axis scale; RGBA: within rgba_tol. *)
+
+(* default multiplier: the core comparison succeeded for one admissible multiplier *)
+Theorem C20_check_candidates : forall c, check_C20 c = true ->
+  exists mu, In mu (mu_cands (preg (fst (case_field_mu c))) (snd (case_field_mu c))) /\
+             check_C20_core (with_mu c mu) = true.
+Proof. exact check_C20_cands. Qed.
+Print Assumptions C20_check_candidates.
+
+(* explicit multiplier: no freedom *)
+Theorem C20_check_explicit : forall c, (forall fm, case_field_mu c = (fm, MDefault) -> False) ->
+  check_C20 c = true -> check_C20_core c = true.
+Proof. exact check_C20_explicit. Qed.
+Print Assumptions C20_check_explicit.
+
+Theorem C20_check_scalar_sound : forall f mu flt rows ext xs ys xl yl,
+  check_C20_core (CScalar false f mu flt (Some (rows, ext, xs, ys, xl, yl))) = true ->
+  exists im, plot_scalar f mu flt = OK im /\
+    rows_spec f 0 flt rows /\
+    (no_tie f flt = true -> Forall2 (Forall2 oq_eq) (im_rows im) rows) /\
+    im_labels im = (xl, yl) /\
+    length ext = 4%nat /\
+    Qabs (nth 0 (im_extent im) 0 - nth 0 ext 0) <= coord_tol * axis_scale (preg f) 0 (mult_of (preg f) mu) /\
+    Qabs (nth 1 (im_extent im) 0 - nth 1 ext 0) <= coord_tol * axis_scale (preg f) 0 (mult_of (preg f) mu) /\
+    Qabs (nth 2 (im_extent im) 0 - nth 2 ext 0) <= coord_tol * axis_scale (preg f) 1 (mult_of (preg f) mu) /\
+    Qabs (nth 3 (im_extent im) 0 - nth 3 ext 0) <= coord_tol * axis_scale (preg f) 1 (mult_of (preg f) mu).
+Proof. exact core_scalar_sound. Qed.
+Print Assumptions C20_check_scalar_sound.
+
+Theorem C20_check_contour_sound : forall f mu flt rows ext xs ys xl yl,
+  check_C20_core (CScalar true f mu flt (Some (rows, ext, xs, ys, xl, yl))) = true ->
+  exists im, plot_contour f mu flt = OK im /\
+    rows_spec f 0 flt rows /\
+    (no_tie f flt = true -> Forall2 (Forall2 oq_eq) (im_rows im) rows) /\
+    im_labels im = (xl, yl) /\
+    length (im_x im) = length xs /\ length (im_y im) = length ys /\
+    (forall i, (i < length xs)%nat ->
+       Qabs (nth i (im_x im) 0 - nth i xs 0) <= coord_tol * axis_scale (preg f) 0 (mult_of (preg f) mu)) /\
+    (forall j, (j < length ys)%nat ->
+       Qabs (nth j (im_y im) 0 - nth j ys 0) <= coord_tol * axis_scale (preg f) 1 (mult_of (preg f) mu)).
+Proof. exact core_contour_sound. Qed.
+Print Assumptions C20_check_contour_sound.
+
+Theorem C20_check_vector_sound : forall f mu arg uc cf ox oy ou ov omask oc xl yl,
+  check_C20_core (CVector f mu arg uc cf (Some ((ox, oy, ou, ov, omask, oc), xl, yl))) = true ->
+  exists q, plot_vector f mu arg uc cf = OK q /\ qv_labels q = (xl, yl) /\
+    quiver_spec f (mult_of (preg f) mu) q ox oy ou ov omask /\
+    (oc = None -> qv_color q = false) /\
+    (forall cs, oc = Some cs -> qv_color q = true /\ length cs = (n0 f * n1 f)%nat).
+Proof. exact core_vector_sound. Qed.
+Print Assumptions C20_check_vector_sound.
+
+Theorem C20_check_lightness_sound : forall f mu flt lf clim tabs rows ext xl yl,
+  check_C20_core (CLight f mu flt lf clim tabs (Some (rows, ext, xl, yl))) = true ->
+  exists ls l, plot_lightness_with (fun _ _ => false) f mu flt lf clim tabs = OK ls /\ In l ls /\
+    norm_tab_ok f tabs = true /\ light_spec f flt (mult_of (preg f) mu) l rows ext xl yl.
+Proof. exact core_light_sound. Qed.
+Print Assumptions C20_check_lightness_sound.
+
+Theorem C20_check_call_sound : forall f mu flt oimg oq xl yl,
+  check_C20_core (CCall f mu flt (Some (oimg, oq, xl, yl))) = true ->
+  exists co, plot_call f mu flt = OK co /\ ca_labels co = (xl, yl) /\
+    match ca_image co, oimg with
+    | None, None => True
+    | Some (ks, _, ext), Some (orows, oext) =>
+        (exists k, In k ks /\ rows_spec f k flt orows) /\ extent_close (preg f) (mult_of (preg f) mu) ext oext = true
+    | _, _ => False
+    end /\
+    match ca_quiver co, oq with
+    | None, None => True
+    | Some q, Some (ox, oy, ou, ov, omask, oc) => quiver_spec f (mult_of (preg f) mu) q ox oy ou ov omask
+    | _, _ => False
+    end.
+Proof. exact core_call_sound. Qed.
+Print Assumptions C20_check_call_sound.
+
+(* recorded refusals: accepted only when the model refuses as well *)
+Theorem C20_check_refusals_sound :
+  (forall ct f mu flt, check_C20_core (CScalar ct f mu flt None) = true ->
+     exists e, (if ct then plot_contour f mu flt else plot_scalar f mu flt) = Err e) /\
+  (forall f mu arg uc cf, check_C20_core (CVector f mu arg uc cf None) = true ->
+     exists e, plot_vector f mu arg uc cf = Err e) /\
+  (forall f mu flt lf clim tabs, check_C20_core (CLight f mu flt lf clim tabs None) = true ->
+     exists e, plot_lightness_with (fun _ _ => false) f mu flt lf clim tabs = Err e) /\
+  (forall f mu flt, check_C20_core (CCall f mu flt None) = true -> exists e, plot_call f mu flt = Err e).
+Proof. exact core_refusals. Qed.
+Print Assumptions C20_check_refusals_sound.
+
+(* a whole shard: no failing index means every call of every record was accepted *)
+Theorem C20_shard_verdict : forall (cases : list c20_top) k,
+  failing k (map check_C20_top cases) = [] ->
+  forall l c, In l cases -> In c l -> check_C20 c = true.
+Proof. exact shard_verdict. Qed.
+Print Assumptions C20_shard_verdict.
+
+(* TRANSFER of C20_scalar_values / C20_hidden_default: the entry READ BACK at row r, column c is the
+   model's entry; NaN iff cell (c, r) is invalid, else the field's own value (any multiplier) *)
+Theorem C20_accepted_scalar_default : forall ct f mu rows ext xs ys xl yl r c,
+  check_C20 (CScalar ct f mu None (Some (rows, ext, xs, ys, xl, yl))) = true ->
+  (r < n1 f)%nat -> (c < n0 f)%nat ->
+  length rows = n1 f /\ length (nth r rows []) = n0 f /\
+  oq_eq (nth c (nth r rows []) None) (nth c (nth r (scalar_values f None) []) None) /\
+  (nth c (nth r rows []) None = None <-> fvalid f c r = false) /\
+  (fvalid f c r = true -> exists v, nth c (nth r rows []) None = Some v /\ v == fval f 0 c r).
+Proof. exact accepted_scalar_default. Qed.
+Print Assumptions C20_accepted_scalar_default.
+
+(* explicit filter (possibly on another resolution): observed NaN / number justified by an admissible
+   nearest filter cell; an observed number is the field's own value *)
+Theorem C20_accepted_scalar_filter : forall ct f mu a rows ext xs ys xl yl r c,
+  check_C20 (CScalar ct f mu (Some a) (Some (rows, ext, xs, ys, xl, yl))) = true ->
+  (r < n1 f)%nat -> (c < n0 f)%nat ->
+  match nth c (nth r rows []) None with
+  | None => exists v, In v (resample_cands a (n0 f) (n1 f) c r) /\ v == 0
+  | Some w => (exists v, In v (resample_cands a (n0 f) (n1 f) c r) /\ ~ v == 0) /\ w == fval f 0 c r
+  end.
+Proof. exact accepted_scalar_filter. Qed.
+Print Assumptions C20_accepted_scalar_filter.
+
+(* TRANSFER of C20_scalar_position: the OBSERVED array, painted over the model's extent (the observed
+   extent is within coord_tol of it, C20_check_scalar_sound), shows at (x, y) the value of the mesh
+   cell containing (x*m, y*m); the observed labels are those of the multiplier's prefix *)
+Theorem C20_accepted_scalar_position : forall f mu flt rows ext xs ys xl yl lo0 lo1 hi0 hi1,
+  check_C20 (CScalar false f mu flt (Some (rows, ext, xs, ys, xl, yl))) = true ->
+  no_tie f flt = true ->
+  pmin (preg f) = [lo0; lo1] -> pmax (preg f) = [hi0; hi1] ->
+  lo0 < hi0 -> lo1 < hi1 -> (0 < n0 f)%nat -> (0 < n1 f)%nat ->
+  exists mu' im m p, In mu' (mu_cands (preg f) mu) /\ plot_scalar f mu' flt = OK im /\
+  setup_multiplier (preg f) mu' = OK (m, p) /\ 0 < m /\ (xl, yl) = axis_labels (preg f) p /\
+  forall x y, lo0 <= x * m -> x * m < hi0 -> lo1 <= y * m -> y * m < hi1 ->
+  exists i j, (i < n0 f)%nat /\ (j < n1 f)%nat /\
+    (let c0 := cell_of lo0 hi0 (Z.of_nat (n0 f)) in
+     lo0 + inject_Z (Z.of_nat i) * c0 <= x * m /\ x * m < lo0 + (inject_Z (Z.of_nat i) + 1) * c0) /\
+    (let c1 := cell_of lo1 hi1 (Z.of_nat (n1 f)) in
+     lo1 + inject_Z (Z.of_nat j) * c1 <= y * m /\ y * m < lo1 + (inject_Z (Z.of_nat j) + 1) * c1) /\
+    oq_eq (displayed_cell rows (im_extent im) None x y)
+          (if hidden f flt i j then None else Some (fval f 0 i j)).
+Proof. exact accepted_scalar_position. Qed.
+Print Assumptions C20_accepted_scalar_position.
+
+Theorem C20_no_tie_default : forall f, no_tie f None = true.
+Proof. exact no_tie_default. Qed.
+Print Assumptions C20_no_tie_default.
+
+(* TRANSFER of C20_vector_components: the arrow read back at index j*n0 + i is masked iff cell (i, j)
+   is invalid; otherwise its U, V are the field's own selected components (a missing one is 0) *)
+Theorem C20_accepted_vector_components : forall f mu arg uc cf ox oy ou ov omask oc xl yl,
+  check_C20 (CVector f mu arg uc cf (Some ((ox, oy, ou, ov, omask, oc), xl, yl))) = true ->
+  exists nx ny ax ay,
+    arrow_names f arg = OK (nx, ny) /\ comp_index f nx = OK ax /\ comp_index f ny = OK ay /\
+    length ou = (n0 f * n1 f)%nat /\ length ov = (n0 f * n1 f)%nat /\ length omask = (n0 f * n1 f)%nat /\
+    forall i j, (i < n0 f)%nat -> (j < n1 f)%nat ->
+      nth (arrow_index (n0 f) j i) omask false = negb (fvalid f i j) /\
+      (fvalid f i j = true ->
+       nth (arrow_index (n0 f) j i) ou 0 == comp_val f ax i j /\
+       nth (arrow_index (n0 f) j i) ov 0 == comp_val f ay i j).
+Proof. exact accepted_vector_components. Qed.
+Print Assumptions C20_accepted_vector_components.
+
+(* TRANSFER of C20_vector_grid + C20_centres: the observed arrow of cell (i, j) sits within coord_tol
+   (relative to the axis scale) of the cell centre divided by the multiplier *)
+Theorem C20_accepted_vector_positions : forall f mu arg uc cf ox oy ou ov omask oc xl yl lo0 lo1 hi0 hi1,
+  check_C20 (CVector f mu arg uc cf (Some ((ox, oy, ou, ov, omask, oc), xl, yl))) = true ->
+  nth 0 (pmin (preg f)) 0 = lo0 -> nth 0 (pmax (preg f)) 0 = hi0 -> lo0 < hi0 ->
+  nth 1 (pmin (preg f)) 0 = lo1 -> nth 1 (pmax (preg f)) 0 = hi1 -> lo1 < hi1 ->
+  exists mu' m p, In mu' (mu_cands (preg f) mu) /\ setup_multiplier (preg f) mu' = OK (m, p) /\
+    (xl, yl) = axis_labels (preg f) p /\
+    forall i j, (i < n0 f)%nat -> (j < n1 f)%nat ->
+      Qabs (nth i (centres (preg f) (n0 f) 0 m) 0 - nth (arrow_index (n0 f) j i) ox 0)
+        <= coord_tol * axis_scale (preg f) 0 m /\
+      Qabs (nth j (centres (preg f) (n1 f) 1 m) 0 - nth (arrow_index (n0 f) j i) oy 0)
+        <= coord_tol * axis_scale (preg f) 1 m /\
+      nth i (centres (preg f) (n0 f) 0 m) 0 ==
+        (lo0 + (inject_Z (Z.of_nat i) + (1 # 2)) * cell_of lo0 hi0 (Z.of_nat (n0 f))) / m /\
+      nth j (centres (preg f) (n1 f) 1 m) 0 ==
+        (lo1 + (inject_Z (Z.of_nat j) + (1 # 2)) * cell_of lo1 hi1 (Z.of_nat (n1 f))) / m.
+Proof. exact accepted_vector_positions. Qed.
+Print Assumptions C20_accepted_vector_positions.
+
+(* TRANSFER of C20_refuse_ndim: on a mesh that is not two-dimensional an accepted record is a refusal *)
+Theorem C20_accepted_refusal_ndim : forall c,
+  ndim (preg (fst (case_field_mu c))) <> 2%nat -> check_C20 c = true ->
+  match c with
+  | CScalar _ _ _ _ obs => obs = None
+  | CVector _ _ _ _ _ obs => obs = None
+  | CLight _ _ _ _ _ _ obs => obs = None
+  | CCall _ _ _ obs => obs = None
+  end.
+Proof. exact accepted_refusal_ndim. Qed.
+Print Assumptions C20_accepted_refusal_ndim.
+
+(* ... and an observed scalar picture certifies a 2-d mesh and at most one component *)
+Theorem C20_accepted_scalar_not_refused : forall f mu flt o,
+  check_C20 (CScalar false f mu flt (Some o)) = true -> ndim (preg f) = 2%nat /\ (pnv f <= 1)%nat.
+Proof. exact accepted_scalar_not_refused. Qed.
+Print Assumptions C20_accepted_scalar_not_refused.
+
+(* non-vacuity: concrete accepted cases *)
+Example C20_accepted_scalar_instance :
+  check_C20 (CScalar false witness_field MDefault None
+               (Some (witness_rows, [0; 4; 0; 2], [], [], "x (m)"%string, "y (m)"%string))) = true
+  /\ no_tie witness_field None = true.
+Proof. exact accepted_scalar_instance. Qed.
+Print Assumptions C20_accepted_scalar_instance.
+
+Example C20_accepted_vector_instance :
+  check_C20 (CVector witness_vfield MDefault None false None
+     (Some (([1; 3], [1; 1], [1; 0], [2; 0], [false; true], None), "x (m)"%string, "y (m)"%string))) = true.
+Proof. exact accepted_vector_instance. Qed.
+Print Assumptions C20_accepted_vector_instance.
+
+Example C20_accepted_refusal_instance :
+  check_C20 (CScalar false (mkPF (mkRegion [0] [4] ["x"%string] ["m"%string] (1 # 1000000000000))
+                                 [4%nat] 1 [] [] [0; 1; 2; 3] [true; true; true; true]) MDefault None None) = true.
+Proof. exact accepted_refusal_instance. Qed.
+Print Assumptions C20_accepted_refusal_instance.
